@@ -110,7 +110,10 @@ def timer_lifecycle(P, R, cl):
             if s.ev['k'] == 'store' and is_field(s.ev['lhs'], 'timeout', core.REQ_REC):
                 n += 1
                 rhs = s.ev.get('rhs') or {}
-                ok = f in ann and (rhs.get('callee') == 'event_new' or const_of(rhs) == 0)
+                # the announce handler itself, or a helper that only it calls
+                callers = {c.fn.key for c in P.callers(f, may=True)}
+                where = f in ann or (bool(callers) and callers <= {a.key for a in ann})
+                ok = where and (rhs.get('callee') == 'event_new' or const_of(rhs) == 0)
                 R.ob('C10.WMC.2', ok, s, 'a request\'s timer is created (or left NULL) only when the request is announced (%s)' % sx(rhs), key='timer-store')
         for s in f.calls():
             if s.ev.get('callee') in ('event_free', 'event_del') and s.ev['args'] and on_path(s.ev['args'][0], 'timeout', core.REQ_REC):
